@@ -959,6 +959,22 @@ def c01r(ctx):
         o.sites += len(ss)
         if len(ss) != 1 or oc.must_pass([0], [ss[0].bb]):
             ctx.fail(o, Site(oc, 0, 0), "observe_callee_fingerprint does not call %s on every path" % pat.rstrip("$"))
+    # ---- backward projection re-runs exactly the projection callers of a changed firewall / projection
+    o = ctx.ob("C01.r", "invoke_backward_projections/exactly-the-projection-callers", "K4",
+               "invoke_backward_projections collects a backward edge's source exactly when its kind is a projection")
+    cands = [x for x in prog.find(r"^Snapshot::invoke_backward_projections::") if x.is_coroutine and x.calls_to(r"::is_projection$")]
+    bp = ctx.touch(cands[0]) if cands else ctx.touch(prog.coroutine_of("Snapshot::invoke_backward_projections"))
+    pushes = [s_ for s_ in bp.calls_to(r"alloc::vec::Vec::<T(, A)?>::push$")]
+    o.sites = len(pushes)
+    if len(pushes) != 1:
+        ctx.fail(o, Site(bp, 0, 0), "anchor missing: the collection of projection callers in invoke_backward_projections (found %d pushes)" % len(pushes))
+    else:
+        g = df.guarded_by(bp, pushes[0].bb, lambda c: c.kind == "call" and re.search(r"QueryKind>?::is_projection$", c.callee))
+        pol = {((v != 0) != c.negated) for sb, v, tb, c in g if v != "otherwise"} | {(not c.negated) for sb, v, tb, c in g if v == "otherwise"}
+        if pol != {True}:
+            ctx.fail(o, pushes[0], "a caller is scheduled for backward projection under is_projection() == %s (must be exactly `true`)" % (sorted(pol) or "no test"))
+        if not any(x.kind == "call" and (x.callee() or "").endswith("get_backward_edges_unchecked") for x in df.origins_of_operand(bp, pushes[0].node["args"][1])):
+            ctx.fail(o, pushes[0], "what is scheduled is not a source of this node's backward edges")
     # ---- un-registering a callee removes exactly that callee from the recorded order
     o = ctx.ob("C01.r", "CalleeOrder::abort_callee/removes-exactly-the-callee", "K5",
                "CalleeOrder::abort_callee selects the entry to remove by equality with the callee it was given")
